@@ -3,7 +3,7 @@
 (*   [id, S, O, reparse, compile, exempt <<<<clause, name, kind>>>>]                              *)
 (* One VERDICT per case (first offender) plus one line per offender under the id "<id>#<k>"       *)
 (* (clause codes: PL ParentLink, SC ScopeOnChain, RS Resolvable, FA FrontendAccepts,              *)
-(* CA CompilerAccepts; text "<code>:<symbol>:<kind>").                                            *)
+(* CA CompilerAccepts; text "<code>;<symbol>;<kind>").                                            *)
 EXTENDS WellFormedIR, Json, IOUtils
 Cases == JsonDeserialize(IOEnv.CASES)
 
@@ -14,7 +14,7 @@ Exempt(c) == {<<c.exempt[i][1], c.exempt[i][2], c.exempt[i][3]>> : i \in 1..Len(
 AllOff(c) == (Offenders(c.S, c.O)
               \cup (IF c.reparse = "ok" THEN {} ELSE {<<"FA", c.reparse, "code">>})
               \cup (IF c.compile = "ok" THEN {} ELSE {<<"CA", c.compile, "code">>})) \ Exempt(c)
-Text(o) == o[1] \o ":" \o o[2] \o ":" \o o[3]
+Text(o) == o[1] \o ";" \o o[2] \o ";" \o o[3]
 
 RECURSIVE PrintAll(_, _, _)
 PrintAll(id, offs, k) == IF k > Len(offs) THEN TRUE
